@@ -201,7 +201,12 @@ def fill_rules(prog, R, f):
                 for s_ in f.blocks[bb].stmts:
                     if s_.k == 'assign' and s_.place.local == 0 and s_.rv.k == 'agg' and s_.rv.j.get('variant') == 'Err':
                         retv = s_
-            R.add('FILL-2', f, 'exit:error-return', retv is not None, site(f, line), 'Err arm leaves the loop by returning Err')
+            # every path from this exit to a return must assign _0 = Err(..) (must-pass-through)
+            err_blocks = set(bb for bb in cfg.reachable for s_ in f.blocks[bb].stmts
+                             if s_.k == 'assign' and s_.place.local == 0 and s_.rv.k == 'agg' and s_.rv.j.get('variant') == 'Err')
+            escape = [bb for bb in cfg.reach_from(s, removed=err_blocks, include_start=True) if f.blocks[bb].term.k == 'return']
+            R.add('FILL-2', f, 'exit:error-return', retv is not None and not escape, site(f, line),
+                  'Err arm leaves the loop by returning Err on every path: %s' % (not escape))
             if retv is not None:
                 rs = roots_of(f, retv.rv.ops[0], du)
                 ok = len(rs) == 1 and rs[0][0] == 'call' and rs[0][1] is rt and [x[2] for x in rs[0][-1]] == ['Err']
